@@ -216,7 +216,10 @@ def big_mixed_document(rng, size_kb):
     total = 0
     while total < size_kb * 1024:
         pad = "x" * rng.randrange(0, 40)
-        piece = f"<e{n % 7} k=\"{n}\">{pad}{n}</e{n % 7}>t{n}{' ' * rng.randrange(0, 3)}"
+        # tails of all sizes: libxml2 hands long character data over in several pieces, and a piece can end at a
+        # read-buffer boundary while the element's end event is already out
+        long_tail = "y" * rng.choice([0, 0, 0, 0, 320, 900, 2500]) + ("z" * rng.randrange(0, 50) if rng.random() < 0.3 else "")
+        piece = f"<e{n % 7} k=\"{n}\">{pad}{n}</e{n % 7}>t{n}{long_tail}{' ' * rng.randrange(0, 3)}"
         parts.append(piece)
         total += len(piece)
         n += 1
